@@ -118,7 +118,7 @@ func (w *Where) buildIdxSel(index []string, mode byte, perCol map[string][]span)
 				lookup := len(exploded[i]) == len(index)
 				if !lookup {
 					assert.That(encode)
-					c.End = c.Org + ixkey.Sep + ixkey.Max
+					c.End = prefixEnd(exploded[i])
 				}
 			}
 		}
@@ -319,6 +319,19 @@ outer:
 	return result
 }
 
+// prefixEnd returns the end of the range of keys starting with values.
+// It can't be built from the encoded values (the org)
+// because that has trailing empty values trimmed,
+// so it would also cover keys with other values in their place.
+func prefixEnd(values []span) string {
+	var enc ixkey.Encoder
+	for _, v := range values {
+		enc.Add(v.org.val)
+	}
+	enc.Add(ixkey.Max)
+	return enc.String()
+}
+
 // valRaw is for non-encoded (single field keys)
 func (x side) valRaw() string {
 	if x.inc {
@@ -357,7 +370,7 @@ func skipScanSuffix(perCol map[string][]span, idx []string, prefixLen int) (
 		pr := makePointRanges(true, [][]span{sp})[0]
 		if pr.isPoint() {
 			// convert point to range
-			pr.End = pr.Org + ixkey.Sep + ixkey.Max
+			pr.End = prefixEnd(sp)
 		}
 		return i, len(spans), pr
 	}
